@@ -74,6 +74,36 @@ CLAIMED = {
                 "4 and cube4D level 2.",
         "design_ref": "DESIGN.md section 4, C18",
     },
+    "C10": {
+        "engine": "walker",
+        "technique": "deterministic simulation: pseudotrajectory generators as cooperative tasks sharing source "
+                     "universes, stepped in seeded order with cancel/restart, drain + random-order reads and "
+                     "global-RNG faults; every frame compared with an independent rigid-body model",
+        "text": "Seeded exploration of interleavings of 1-3 generator tasks built from the same source molecules "
+                "(files written by the simulator or shipped with the repository, read through the package's reader). "
+                "Each yielded or re-read frame must equal, atom by atom within 1e-4 A, the rigid placement prescribed "
+                "by its grid row (rotation about the centre of mass by an independently coded quaternion formula, then "
+                "translation), with molecule 1 untouched, frame count/index and atom order as stated. Sampling.",
+        "note": "Trusted: the reference model in sim/walker.py, MDAnalysis readers and mass guessing. One generator per "
+                "Pseudotrajectory object (documented contract). float32 coordinates -> tolerance 1e-4 A up to 100 A.",
+        "design_ref": "DESIGN.md section 4, C10",
+    },
+    "C11": {
+        "engine": "walker",
+        "technique": "deterministic simulation: trajectories from a seeded rigid-body walker on SE(3), worker pool "
+                     "replaced by SimPool (seeded worker count, chunking, chunk order, duplicated chunk delivery); "
+                     "per-frame comparison with a geometric nearest-cell reference model",
+        "text": "Seeded exploration of walker trajectories (random walk, i.i.d., excursions beyond the outer shell, "
+                "whole-system shift) and pool schedules. Every frame outside a small boundary margin must be assigned "
+                "(t*n_o+o)*n_b+b of the reference model (nearest radius with outer bound, nearest direction, smallest "
+                "relative rotation angle), NaN beyond the bound; the library's own pseudotrajectory must be assigned "
+                "back to 0,1,2,... Candidly the schedule dimension is shallow (frames are independent); its job is to "
+                "show that independence. Sampling.",
+        "note": "Trusted: the reference model in sim/walker.py. multiprocessing.Pool is a stub (same pickle-per-chunk "
+                "contract). Second molecules with three distinct principal moments (gaps >= 8 %), planar included; "
+                "frames within 1e-3 A / 2e-3 rad of a cell boundary excluded. Bounds n_b<=20, n_o<=26, <=600 frames.",
+        "design_ref": "DESIGN.md section 4, C11",
+    },
     "C13": {
         "engine": "merger",
         "technique": "deterministic simulation: seeded merge/delete/cut-and-merge histories with message faults on the "
